@@ -55,6 +55,12 @@ model/Check10.vos model/Check10.vok model/Check10.required_vos: model/Check10.v 
 model/MostRecent.vo model/MostRecent.glob model/MostRecent.v.beautified model/MostRecent.required_vo: model/MostRecent.v model/Bytes.vo
 model/MostRecent.vio: model/MostRecent.v model/Bytes.vio
 model/MostRecent.vos model/MostRecent.vok model/MostRecent.required_vos: model/MostRecent.v model/Bytes.vos
+model/PutQuery.vo model/PutQuery.glob model/PutQuery.v.beautified model/PutQuery.required_vo: model/PutQuery.v model/Bytes.vo
+model/PutQuery.vio: model/PutQuery.v model/Bytes.vio
+model/PutQuery.vos model/PutQuery.vok model/PutQuery.required_vos: model/PutQuery.v model/Bytes.vos
+model/Check08.vo model/Check08.glob model/Check08.v.beautified model/Check08.required_vo: model/Check08.v model/Bytes.vo model/PutQuery.vo
+model/Check08.vio: model/Check08.v model/Bytes.vio model/PutQuery.vio
+model/Check08.vos model/Check08.vok model/Check08.required_vos: model/Check08.v model/Bytes.vos model/PutQuery.vos
 model/Check12.vo model/Check12.glob model/Check12.v.beautified model/Check12.required_vo: model/Check12.v gen/Params.vo model/Bytes.vo model/Crc32c.vo model/Id.vo model/Node.vo model/BSearch.vo model/Closest.vo model/RTable.vo model/Check11.vo
 model/Check12.vio: model/Check12.v gen/Params.vio model/Bytes.vio model/Crc32c.vio model/Id.vio model/Node.vio model/BSearch.vio model/Closest.vio model/RTable.vio model/Check11.vio
 model/Check12.vos model/Check12.vok model/Check12.required_vos: model/Check12.v gen/Params.vos model/Bytes.vos model/Crc32c.vos model/Id.vos model/Node.vos model/BSearch.vos model/Closest.vos model/RTable.vos model/Check11.vos
@@ -115,3 +121,12 @@ proofs/MostRecentProofs.vos proofs/MostRecentProofs.vok proofs/MostRecentProofs.
 properties/C16.vo properties/C16.glob properties/C16.v.beautified properties/C16.required_vo: properties/C16.v model/Bytes.vo model/MostRecent.vo proofs/MostRecentProofs.vo
 properties/C16.vio: properties/C16.v model/Bytes.vio model/MostRecent.vio proofs/MostRecentProofs.vio
 properties/C16.vos properties/C16.vok properties/C16.required_vos: properties/C16.v model/Bytes.vos model/MostRecent.vos proofs/MostRecentProofs.vos
+proofs/PutQueryProofs.vo proofs/PutQueryProofs.glob proofs/PutQueryProofs.v.beautified proofs/PutQueryProofs.required_vo: proofs/PutQueryProofs.v model/Bytes.vo model/PutQuery.vo model/Check08.vo
+proofs/PutQueryProofs.vio: proofs/PutQueryProofs.v model/Bytes.vio model/PutQuery.vio model/Check08.vio
+proofs/PutQueryProofs.vos proofs/PutQueryProofs.vok proofs/PutQueryProofs.required_vos: proofs/PutQueryProofs.v model/Bytes.vos model/PutQuery.vos model/Check08.vos
+properties/C08.vo properties/C08.glob properties/C08.v.beautified properties/C08.required_vo: properties/C08.v model/Bytes.vo model/PutQuery.vo model/Check08.vo proofs/PutQueryProofs.vo
+properties/C08.vio: properties/C08.v model/Bytes.vio model/PutQuery.vio model/Check08.vio proofs/PutQueryProofs.vio
+properties/C08.vos properties/C08.vok properties/C08.required_vos: properties/C08.v model/Bytes.vos model/PutQuery.vos model/Check08.vos proofs/PutQueryProofs.vos
+properties/C17.vo properties/C17.glob properties/C17.v.beautified properties/C17.required_vo: properties/C17.v model/Bytes.vo model/PutQuery.vo model/Check08.vo proofs/PutQueryProofs.vo
+properties/C17.vio: properties/C17.v model/Bytes.vio model/PutQuery.vio model/Check08.vio proofs/PutQueryProofs.vio
+properties/C17.vos properties/C17.vok properties/C17.required_vos: properties/C17.v model/Bytes.vos model/PutQuery.vos model/Check08.vos proofs/PutQueryProofs.vos
